@@ -61,7 +61,7 @@ def mk_region_case(rng):
     x, y = rng.uniform(1, C), rng.uniform(1, R)
     ra, dec = wh.wcs.wcs_pix2world([[x, y]], 1)[0]
     rad = cdelt * rng.uniform(0.6, max(R, C) * 0.4)
-    kind = rng.choice(['deep', 'deep', 'coarse', 'union', 'pixels', 'all'])
+    kind = rng.choice(['deep', 'deep', 'coarse', 'union', 'pixels', 'all', 'level', 'wholesky'])
     if blob is not None and rng.random() < 0.8:
         kind = 'tiny'
     if kind == 'tiny':
@@ -88,6 +88,25 @@ def mk_region_case(rng):
         d = max(1, depth - rng.randint(0, 3))
         pix = hp.query_disc(2 ** d, hp.ang2vec(np.pi / 2 - np.radians(dec), np.radians(ra)), np.radians(rad), inclusive=True, nest=True)
         reg.add_pixels(pix, d)          # raw, not renormalised
+    elif kind == 'level':
+        # cells of ANY level 1..depth (level 1 = the 48 coarsest cells a region can store), raw and through add_circles
+        import healpy as hp
+        d = rng.randint(1, depth)
+        big = max(rad, np.degrees(hp.nside2resol(2 ** d)) * rng.uniform(0.3, 1.2))
+        if rng.random() < 0.5:
+            pix = hp.query_disc(2 ** d, hp.ang2vec(np.pi / 2 - np.radians(dec), np.radians(ra)), np.radians(big), inclusive=rng.random() < 0.5, nest=True)
+            if len(pix) == 0:
+                pix = [int(hp.ang2pix(2 ** d, np.pi / 2 - np.radians(dec), np.radians(ra), nest=True))]
+            reg.add_pixels(pix, d)
+        else:
+            reg.add_circles(np.radians(ra), np.radians(dec), np.radians(big), depth=d)
+    elif kind == 'wholesky':
+        # the coarsest description of the whole sky, optionally with a hole cut at the deepest level
+        reg.add_pixels(range(48), 1)
+        if rng.random() < 0.6:
+            hole = Region(maxdepth=depth)
+            hole.add_circles(np.radians(ra), np.radians(dec), np.radians(rad))
+            reg.without(hole)
     else:
         reg.add_circles(np.radians(ra), np.radians(dec), np.radians(60.0))   # covers the whole image
     # tabulate inside(x, y) for FITS pixels over [0, C+1] x [0, R+1] INDEPENDENTLY of Region.sky_within:
@@ -96,13 +115,10 @@ def mk_region_case(rng):
     import healpy as hp
     pts = [(xx, yy) for yy in range(0, R + 2) for xx in range(0, C + 2)]
     sky = wh.wcs.wcs_pix2world(pts, 1)
-    deep = set()
-    for d, ps in copy.deepcopy(reg.pixeldict).items():
-        k = 4 ** (depth - d)
-        for p in ps:
-            deep.update(range(int(p) * k, (int(p) + 1) * k))
     ipix = hp.ang2pix(2 ** depth, np.pi / 2 - np.radians(sky[:, 1]), np.radians(sky[:, 0]), nest=True)
-    ins = [int(q) in deep for q in ipix]
+    stored = {int(d): {int(p) for p in ps} for d, ps in copy.deepcopy(reg.pixeldict).items() if ps}
+    # a position is inside iff the ancestor of its deepest-level pixel at some level d is stored at that level (nested scheme)
+    ins = [any((int(q) >> (2 * (depth - d))) in ps for d, ps in stored.items() if d <= depth) for q in ipix]
     table = {p for p, b in zip(pts, ins) if b}
     # hypothesis validation: origin convention of wcs_pix2world
     s0 = wh.wcs.wcs_pix2world([(p[0] - 1, p[1] - 1) for p in pts[:20]], 0)
@@ -219,16 +235,12 @@ def replay(ctx, obj):
     got = ic.run_impl(case, region=reg, wcs=wh)
     free = ic.run_impl(case)
     import healpy as hp
-    deep = set()
-    for d, ps in m.get('region', {}).items():
-        k = 4 ** (m['depth'] - int(d))
-        for p in ps:
-            deep.update(range(p * k, (p + 1) * k))
+    stored = {int(d): {int(p) for p in ps} for d, ps in m.get('region', {}).items()}
     exp = []
     for isl in free:
         sky = wh.wcs.wcs_pix2world([(c + 1, r + 1) for r, c in isl[1]], 1)
         ipix = hp.ang2pix(2 ** m['depth'], np.pi / 2 - np.radians(sky[:, 1]), np.radians(sky[:, 0]), nest=True)
-        if any(int(q) in deep for q in ipix):
+        if any((int(q) >> (2 * (m['depth'] - d))) in ps for q in ipix for d, ps in stored.items()):
             exp.append(isl)
     print('with region:', got)
     print('expected   :', exp)
